@@ -5,10 +5,10 @@ use std::collections::HashMap;
 use std::panic::{catch_unwind, AssertUnwindSafe};
 
 use cosmian_cover_crypt::{
-    api::Covercrypt, traits::KemAc, AccessPolicy, EncryptionHint, Error, MasterPublicKey,
+    api::Covercrypt, traits::{KemAc, PkeAc}, AccessPolicy, EncryptedHeader, EncryptionHint, Error, MasterPublicKey,
     MasterSecretKey, QualifiedAttribute, UserSecretKey, XEnc,
 };
-use cosmian_crypto_core::{bytes_ser_de::Serializable, Secret};
+use cosmian_crypto_core::{bytes_ser_de::Serializable, Aes256Gcm, Secret};
 
 use crate::util::{hex, unhex};
 use crate::wire::{WMpk, WMsk, WStruct, WUsk, WEnc};
@@ -175,7 +175,37 @@ pub struct Real {
     pub mpks: Vec<Option<MasterPublicKey>>,
     pub usks: Vec<Option<UserSecretKey>>,
     pub encs: Vec<Option<(XEnc, Secret<32>)>>,
+    pub pkes: Vec<Option<(XEnc, Vec<u8>)>>,
+    pub hdrs: Vec<Option<(EncryptedHeader, Secret<32>)>>,
     pub nm: Names,
+}
+
+/// `x<hex>` = bytes, `-` = absent
+fn opt_bytes(s: &str) -> Option<Option<Vec<u8>>> {
+    if s == "-" {
+        Some(None)
+    } else {
+        s.strip_prefix('x').and_then(unhex).map(Some)
+    }
+}
+
+fn tamper_bytes(b: &mut Vec<u8>, op: &str, arg: &str) -> bool {
+    let Ok(n) = arg.parse::<usize>() else { return false };
+    match op {
+        "trunc" => {
+            if n < b.len() {
+                b.truncate(n);
+            }
+            true
+        }
+        "flip" => {
+            if n < b.len() {
+                b[n] ^= 1 << (n % 8);
+            }
+            true
+        }
+        _ => false,
+    }
 }
 
 fn set_slot<T>(v: &mut Vec<Option<T>>, i: usize, x: Option<T>) {
@@ -216,7 +246,7 @@ pub fn clone_msk(m: &MasterSecretKey) -> MasterSecretKey {
 
 impl Real {
     pub fn new() -> Self {
-        Self { cc: Covercrypt::default(), msks: vec![], mpks: vec![], usks: vec![], encs: vec![], nm: Names::default() }
+        Self { cc: Covercrypt::default(), msks: vec![], mpks: vec![], usks: vec![], encs: vec![], pkes: vec![], hdrs: vec![], nm: Names::default() }
     }
 
     fn reset(&mut self) {
@@ -224,6 +254,8 @@ impl Real {
         self.mpks.clear();
         self.usks.clear();
         self.encs.clear();
+        self.pkes.clear();
+        self.hdrs.clear();
         self.nm = Names::default();
     }
 
@@ -496,6 +528,94 @@ impl Real {
                         format!("ok {}", v.join(","))
                     }
                 }
+            }
+            ["pke_enc", ks, xs, p, ptx] => {
+                let (Some(k), Some(j), Some(Some(ptx))) = (handle('K', ks), handle('X', xs), opt_bytes(ptx)) else { return "bad-op".into() };
+                let Some(Some(mpk)) = self.mpks.get(k) else { return "err NoSuchHandle".into() };
+                match policy_of(p).and_then(|ap| PkeAc::<{ Aes256Gcm::KEY_LENGTH }, Aes256Gcm>::encrypt(&self.cc, mpk, &ap, &ptx)) {
+                    Err(e) => err_line(&e),
+                    Ok(c) => {
+                        let o = format!("ok len={}", c.1.len());
+                        set_slot(&mut self.pkes, j, Some(c));
+                        o
+                    }
+                }
+            }
+            ["pke_dec", us, xs] => {
+                let (Some(i), Some(j)) = (handle('U', us), handle('X', xs)) else { return "bad-op".into() };
+                match (self.usks.get(i), self.pkes.get(j)) {
+                    (Some(Some(u)), Some(Some(c))) => match PkeAc::<{ Aes256Gcm::KEY_LENGTH }, Aes256Gcm>::decrypt(&self.cc, u, c) {
+                        Err(e) => err_line(&e),
+                        Ok(None) => "ok none".into(),
+                        Ok(Some(p)) => format!("ok some x{}", hex(&p)),
+                    },
+                    _ => "err NoSuchHandle".into(),
+                }
+            }
+            ["pke_tamper", xs, xd, op, arg] => {
+                let (Some(i), Some(j)) = (handle('X', xs), handle('X', xd)) else { return "bad-op".into() };
+                let Some(Some(c)) = self.pkes.get(i) else { return "err NoSuchHandle".into() };
+                let mut c = c.clone();
+                if *op == "swapenc" {
+                    let Some(Some(e)) = handle('E', arg).and_then(|k| self.encs.get(k)) else { return "err NoSuchHandle".into() };
+                    c.0 = e.0.clone();
+                } else if !tamper_bytes(&mut c.1, op, arg) {
+                    return "bad-op".into();
+                }
+                set_slot(&mut self.pkes, j, Some(c));
+                "ok".into()
+            }
+            ["hdr_gen", ks, hs, p, md, ad] => {
+                let (Some(k), Some(j), Some(md), Some(ad)) = (handle('K', ks), handle('H', hs), opt_bytes(md), opt_bytes(ad)) else { return "bad-op".into() };
+                let Some(Some(mpk)) = self.mpks.get(k) else { return "err NoSuchHandle".into() };
+                match policy_of(p).and_then(|ap| EncryptedHeader::generate(&self.cc, mpk, &ap, md.as_deref(), ad.as_deref())) {
+                    Err(e) => err_line(&e),
+                    Ok((sec, h)) => {
+                        let o = format!("ok meta={}", h.encrypted_metadata.as_ref().map(|m| m.len().to_string()).unwrap_or("-".into()));
+                        set_slot(&mut self.hdrs, j, Some((h, sec)));
+                        o
+                    }
+                }
+            }
+            ["hdr_dec", us, hs, ad] => {
+                let (Some(i), Some(j), Some(ad)) = (handle('U', us), handle('H', hs), opt_bytes(ad)) else { return "bad-op".into() };
+                match (self.usks.get(i), self.hdrs.get(j)) {
+                    (Some(Some(u)), Some(Some((h, sec)))) => match h.decrypt(&self.cc, u, ad.as_deref()) {
+                        Err(e) => err_line(&e),
+                        Ok(None) => "ok none".into(),
+                        Ok(Some(c)) => format!(
+                            "ok some sec={} meta={}",
+                            if &c.secret == sec { 1 } else { 0 },
+                            c.metadata.as_ref().map(|m| format!("x{}", hex(m))).unwrap_or("-".into())
+                        ),
+                    },
+                    _ => "err NoSuchHandle".into(),
+                }
+            }
+            ["hdr_tamper", hs, hd, op, arg] => {
+                let (Some(i), Some(j)) = (handle('H', hs), handle('H', hd)) else { return "bad-op".into() };
+                let Some(Some((h, sec))) = self.hdrs.get(i) else { return "err NoSuchHandle".into() };
+                let bytes = h.serialize().unwrap();
+                let mut h2 = EncryptedHeader::deserialize(&bytes).unwrap();
+                let sec = sec.clone();
+                // `deserialize` maps an empty ciphertext to None; keep the in-memory value unless a round trip is asked
+                if *op != "roundtrip" {
+                    h2.encrypted_metadata = h.encrypted_metadata.clone();
+                }
+                if *op == "swapenc" {
+                    let Some(Some(e)) = handle('E', arg).and_then(|k| self.encs.get(k)) else { return "err NoSuchHandle".into() };
+                    h2.encapsulation = e.0.clone();
+                } else if *op != "roundtrip" {
+                    if let Some(m) = h2.encrypted_metadata.as_mut() {
+                        if !tamper_bytes(m, op, arg) {
+                            return "bad-op".into();
+                        }
+                    } else if arg.parse::<usize>().is_err() {
+                        return "bad-op".into();
+                    }
+                }
+                set_slot(&mut self.hdrs, j, Some((h2, sec)));
+                "ok".into()
             }
             ["covers", ms, ks, pu, pe] => {
                 // the *implementation* verdict: fresh key for `pu`, fresh encapsulation for `pe`, real decaps
